@@ -63,6 +63,10 @@ func runC19(c *core.Ctx) core.Meta {
 	// ---------------- PMC ----------------
 	p := NewPkgInfo(c, pmcPkg)
 
+	// R19.11 a refused command leaves the running one alone
+	st11 := c.Rule("R19.11", "a command the control middleware of the command processor refuses (return false: an earlier flush / shootdown / restart is still in progress, the command stays at the head of the port) does not change the middleware's state: in every bool-returning handler of ctrlMiddleware that takes a command or response, no store to a field of the middleware is followed by a return false. A shootdown that is only peeked while another runs must not replace currShootdownRequest: the running one would flush the waiting command's pages from the TLBs and report completion with its own pages still cached", 10)
+	checkNoStoreBeforeRefusal(c, st11, "R19.11", NewPkgInfo(c, cpPkg), "ctrlMiddleware", "the command that is being served loses its parameters to a command that was not accepted; its TLB flush names the wrong pages and the GPU keeps a stale translation for a page that migrated away")
+
 	// R19.10 the owner answers whoever asked last
 	st10 := c.Rule("R19.10", "a page-migration controller that serves a pull request sends the data to the controller that asked for it: the handler that accepts a DataPullReq stores the request's Src in the field the responses are addressed with (PageMigrationController.requestingPMCtrlPort) on every path to its return - unconditionally, since the field is never cleared. Recording the requester only when none is recorded addresses every later migration's chunks to the first controller that ever pulled from this owner: the third GPU's page is never filled and the first one panics on data it did not ask for", 1)
 	for _, fn := range p.Funcs {
